@@ -1705,3 +1705,155 @@ def expand_thin_record_methods(trees: Dict[str, ast.Module], known: Dict[str, Se
             cls.body[:] = [x for x in cls.body if x is not fd] or [ast.Pass()]
     return logs
 
+
+# ---- small context-manager classes --------------------------------------------------------------------------------------------------------
+
+def _fold_none_params(blk: InlineBlock) -> None:
+    """in an expanded block whose parameters were bound to None (`exc_type = None`): `if exc_type is None: A else: B` is A"""
+    nones = {st.targets[0].id for st in blk.body if isinstance(st, ast.Assign) and getattr(st, "_inline_bind", False) and isinstance(st.targets[0], ast.Name)
+             and isinstance(st.value, ast.Constant) and st.value.value is None}
+    stored_again = {n.id for st in blk.body if not getattr(st, "_inline_bind", False) for n in ast.walk(st) if isinstance(n, ast.Name) and isinstance(n.ctx, ast.Store)}
+    nones -= stored_again
+    if not nones:
+        return
+
+    def fold(stmts: List[ast.stmt]) -> List[ast.stmt]:
+        out: List[ast.stmt] = []
+        for st in stmts:
+            if isinstance(st, ast.If) and isinstance(st.test, ast.Compare) and len(st.test.ops) == 1 and isinstance(st.test.left, ast.Name) and st.test.left.id in nones \
+                    and isinstance(st.test.comparators[0], ast.Constant) and st.test.comparators[0].value is None and isinstance(st.test.ops[0], (ast.Is, ast.IsNot)):
+                out += fold(st.body if isinstance(st.test.ops[0], ast.Is) else st.orelse)
+                continue
+            for fld in ("body", "orelse", "finalbody"):
+                b = getattr(st, fld, None)
+                if isinstance(b, list) and b and isinstance(b[0], ast.stmt):
+                    setattr(st, fld, fold(b) or ([ast.Pass()] if fld == "body" else []))
+            out.append(st)
+        return out
+    blk.body = fold(blk.body) or [ast.Pass()]
+    used = {n.id for st in blk.body if not getattr(st, "_inline_bind", False) for n in ast.walk(st) if isinstance(n, ast.Name)}
+    blk.body = [st for st in blk.body if not (getattr(st, "_inline_bind", False) and isinstance(st.targets[0], ast.Name) and st.targets[0].id in nones and st.targets[0].id not in used)] or [ast.Pass()]
+
+
+def expand_cm_classes(tree: ast.Module, known: Set[str]) -> List[str]:
+    """A private class that the reference tree does not have and that is nothing but a context manager (`__init__`, `__enter__`, `__exit__`, each a short straight
+    method that touches `self` only through its attributes) is expanded where it is used, `with _C(args) as v: BODY`:
+
+        <__init__ with the attributes as locals>; v = <__enter__>; BODY; <__exit__(None, None, None)>            when __exit__ looks at the exception it is given
+        <__init__>; v = <__enter__>; try: BODY finally: <__exit__>                                             when it does not (it then runs like a finally clause)
+
+    In the first form only the normal completion of BODY is modelled (what __exit__ does when BODY raises is not: the rules that look at exceptional exits see none)."""
+    log: List[str] = []
+    classes: Dict[str, ast.ClassDef] = {}
+    for st in tree.body:
+        if isinstance(st, ast.ClassDef) and st.name.startswith("_") and st.name not in known and not st.decorator_list:
+            ms = {m.name: m for m in st.body if isinstance(m, ast.FunctionDef)}
+            other = [x for x in st.body if not isinstance(x, ast.FunctionDef) and not (isinstance(x, ast.Expr) and isinstance(x.value, ast.Constant)) and not isinstance(x, (ast.AnnAssign, ast.Pass))]
+            if {"__enter__", "__exit__"} <= set(ms) and set(ms) <= {"__init__", "__enter__", "__exit__"} and not other:
+                if all(not any(isinstance(n, (ast.Yield, ast.YieldFrom, ast.Await, ast.FunctionDef, ast.Lambda, ast.ClassDef)) for n in _own_walk(m)) and not m.decorator_list for m in ms.values()):
+                    classes[st.name] = st
+    if not classes:
+        return log
+
+    def selfless(fd: FuncDef, serial: int) -> Optional[FuncDef]:
+        """the method with `self.<attr>` read as the local `<attr>__cm<serial>` and without its self parameter; None when self is used otherwise"""
+        fd2 = copy.deepcopy(fd)
+        if not fd2.args.args or fd2.args.args[0].arg != "self":
+            return None
+        fd2.args.args = fd2.args.args[1:]
+        bad = []
+
+        class S(ast.NodeTransformer):
+            def visit_Attribute(self, node: ast.Attribute) -> ast.AST:
+                if isinstance(node.value, ast.Name) and node.value.id == "self":
+                    return ast.copy_location(ast.Name(id=f"{node.attr.strip('_')}__cm{serial}", ctx=node.ctx), node)
+                self.generic_visit(node)
+                return node
+
+            def visit_Name(self, node: ast.Name) -> ast.AST:
+                if node.id == "self":
+                    bad.append(node)
+                return node
+        S().visit(fd2)
+        fd2.body = [x for x in fd2.body if not (isinstance(x, ast.AnnAssign) and x.value is None)] or [ast.Pass()]
+        return None if bad else ast.fix_missing_locations(fd2)
+
+    funcs: List[FuncDef] = []
+    for n in ast.walk(tree):
+        if isinstance(n, ast.FunctionDef) and not any(n in c.body for c in classes.values()):
+            funcs.append(n)
+    serial = 0
+    used: Set[str] = set()
+    for caller in funcs:
+        for holder in [caller] + [x for x in _own_walk(caller) if hasattr(x, "body")]:
+            for fld in ("body", "orelse", "finalbody"):
+                b = getattr(holder, fld, None)
+                if not (isinstance(b, list) and b and isinstance(b[0], ast.stmt)):
+                    continue
+                i = 0
+                while i < len(b):
+                    w = b[i]
+                    i += 1
+                    if not (isinstance(w, ast.With) and not isinstance(w, InlineBlock) and len(w.items) == 1 and isinstance(w.items[0].context_expr, ast.Call)
+                            and isinstance(w.items[0].context_expr.func, ast.Name) and w.items[0].context_expr.func.id in classes):
+                        continue
+                    ctor = w.items[0].context_expr
+                    cls = classes[ctor.func.id]  # type: ignore
+                    ms = {m.name: m for m in cls.body if isinstance(m, ast.FunctionDef)}
+                    serial += 1
+                    parts: List[ast.stmt] = []
+                    okk = True
+                    blocks = {}
+                    for mname in ("__init__", "__enter__", "__exit__"):
+                        if mname not in ms:
+                            continue
+                        fd2 = selfless(ms[mname], serial)
+                        if fd2 is None:
+                            okk = False
+                            break
+                        fd2.name = f"{cls.name.strip('_')}_{mname.strip('_')}"
+                        if mname == "__init__":
+                            call = ast.Call(func=ast.Name(id=fd2.name, ctx=ast.Load()), args=list(ctor.args), keywords=list(ctor.keywords))
+                            stx: ast.stmt = ast.Expr(value=call)
+                        elif mname == "__enter__":
+                            call = ast.Call(func=ast.Name(id=fd2.name, ctx=ast.Load()), args=[], keywords=[])
+                            v = w.items[0].optional_vars
+                            stx = ast.Assign(targets=[copy.deepcopy(v)], value=call, type_comment=None) if isinstance(v, ast.Name) else ast.Expr(value=call)
+                            if v is not None and not isinstance(v, ast.Name):
+                                okk = False
+                                break
+                        else:
+                            call = ast.Call(func=ast.Name(id=fd2.name, ctx=ast.Load()), args=[ast.Constant(value=None)] * len(fd2.args.args), keywords=[])
+                            stx = ast.Expr(value=call)
+                        ast.copy_location(stx, w)
+                        ast.fix_missing_locations(stx)
+                        blk = _expand(caller, stx, call, fd2, serial)
+                        if blk is None:
+                            okk = False
+                            break
+                        blocks[mname] = blk
+                    if not okk or "__enter__" not in blocks or "__exit__" not in blocks:
+                        continue
+                    ex = ms["__exit__"]
+                    exc_params = {a.arg for a in ex.args.args[1:]}
+                    looks = any(isinstance(n_, ast.Name) and n_.id in exc_params for n_ in _own_walk(ex))
+                    if looks:
+                        _fold_none_params(blocks["__exit__"])
+                    if "__init__" in blocks:
+                        parts.append(blocks["__init__"])
+                    parts.append(blocks["__enter__"])
+                    if looks:
+                        parts += list(w.body) + [blocks["__exit__"]]
+                    else:
+                        tr = ast.Try(body=list(w.body), handlers=[], orelse=[], finalbody=[blocks["__exit__"]])
+                        ast.copy_location(tr, w)
+                        parts.append(ast.fix_missing_locations(tr))
+                    b[i - 1:i] = parts
+                    i += len(parts) - 1
+                    used.add(cls.name)
+                    log.append(f"context manager {cls.name} expanded in {caller.name}" + ("" if not looks else " (normal completion of the body)"))
+    for name in used:
+        if not any(isinstance(n, ast.Name) and n.id == name for n in ast.walk(tree)):
+            tree.body[:] = [x for x in tree.body if x is not classes[name]]
+    return sorted(set(log))
+
